@@ -672,4 +672,246 @@ theorem load_nofuel (sw : Switches) (proj : Project) : ∀ fuel url cfg st, notA
             | error e => simp only; intro he; cases he; exact this hres
             | ok r1 => simp
 
+
+/-! ### L5: the dependency graph of the cache is well-founded -/
+
+def EnvBelow (env : Env) (n : Nat) : Prop :=
+  (∀ f ∈ env.fwds, f.target < n) ∧ (∀ g ∈ env.globals, g < n) ∧ (∀ e ∈ env.nss, e.2 < n)
+
+def GraphOK (loadF : LoadF) : Prop := ∀ url cfg st, ModsWF st.mods →
+  ModsWF (loadF url cfg st).st.mods ∧ st.mods.length ≤ (loadF url cfg st).st.mods.length ∧
+  ∀ id c, (loadF url cfg st).res = .ok (id, c) → id < (loadF url cfg st).st.mods.length
+
+theorem envBelow_mono (env : Env) (n m : Nat) (h : EnvBelow env n) (hle : n ≤ m) : EnvBelow env m :=
+  ⟨fun f hf => Nat.lt_of_lt_of_le (h.1 f hf) hle, fun g hg => Nat.lt_of_lt_of_le (h.2.1 g hg) hle,
+   fun e he => Nat.lt_of_lt_of_le (h.2.2 e he) hle⟩
+
+theorem modAt_setVar : ∀ (ms : List Mod) (id : Nat) (n : Ident) (v : Val) (i : Nat) (m' : Mod),
+    modAt (setVar ms id n v) i = some m' →
+    ∃ m, modAt ms i = some m ∧ m'.fwds = m.fwds ∧ m'.globals = m.globals ∧ m'.nss = m.nss := by
+  intro ms
+  induction ms with
+  | nil => intro id n v i m' h; simp [setVar, modAt] at h
+  | cons a rest ih =>
+    intro id n v i m' h
+    unfold setVar at h
+    split at h
+    · unfold modAt at h ⊢
+      split at h
+      · rename_i hi
+        cases h
+        rw [if_pos hi]
+        exact ⟨a, rfl, rfl, rfl, rfl⟩
+      · rename_i hi
+        rw [if_neg hi]
+        exact ⟨m', h, rfl, rfl, rfl⟩
+    · unfold modAt at h ⊢
+      rw [setVar_length] at h
+      split at h
+      · rename_i hi
+        cases h
+        rw [if_pos hi]
+        exact ⟨a, rfl, rfl, rfl, rfl⟩
+      · rename_i hi
+        rw [if_neg hi]
+        exact ih id n v i m' h
+
+theorem modsWF_setVar (ms : List Mod) (id : Nat) (n : Ident) (v : Val) (h : ModsWF ms) : ModsWF (setVar ms id n v) := by
+  intro i m' hm
+  obtain ⟨m, hm0, h1, h2, h3⟩ := modAt_setVar ms id n v i m' hm
+  rw [h1, h2, h3]
+  exact h i m hm0
+
+theorem insertRoot_graph (sw : Switches) (env : Env) (st : St) (n : Ident) (v : Val) (h : ModsWF st.mods) :
+    ModsWF (insertRoot sw env st n v).2.mods ∧ (insertRoot sw env st n v).2.mods.length = st.mods.length ∧
+    (insertRoot sw env st n v).1.fwds = env.fwds ∧ (insertRoot sw env st n v).1.globals = env.globals ∧
+    (insertRoot sw env st n v).1.nss = env.nss := by
+  unfold insertRoot
+  split
+  · exact ⟨h, rfl, rfl, rfl, rfl⟩
+  · split
+    · exact ⟨modsWF_setVar _ _ _ _ h, by simp [St.withMods, setVar_length], rfl, rfl, rfl⟩
+    · exact ⟨h, rfl, rfl, rfl, rfl⟩
+
+theorem addModule_below (sw : Switches) (env : Env) (ns : UseNs) (d : Ident) (id : Nat) (ms : List Mod) (env' : Env) (n : Nat)
+    (h : addModule sw env ns d id ms = .ok env') (hb : EnvBelow env n) (hid : id < n) : EnvBelow env' n := by
+  unfold addModule at h
+  repeat' split at h
+  all_goals (first | cases h | skip)
+  · exact ⟨hb.1, by intro g hg; simp only [List.mem_append, List.mem_singleton] at hg; rcases hg with hg | hg; exact hb.2.1 g hg; exact hg ▸ hid, hb.2.2⟩
+  · exact ⟨hb.1, hb.2.1, by intro e he; simp only [List.mem_append, List.mem_singleton] at he; rcases he with he | he; exact hb.2.2 e he; exact he ▸ hid⟩
+  · exact ⟨hb.1, hb.2.1, by intro e he; simp only [List.mem_append, List.mem_singleton] at he; rcases he with he | he; exact hb.2.2 e he; exact he ▸ hid⟩
+
+theorem step_graph (sw : Switches) (loadF : LoadF) (hG : GraphOK loadF) (s : Stmt) (env : Env) (cfg : Cfg) (st : St)
+    (hw : ModsWF st.mods) (hb : EnvBelow env st.mods.length) :
+    ModsWF (step sw loadF s env cfg st).st.mods ∧ st.mods.length ≤ (step sw loadF s env cfg st).st.mods.length ∧
+    ∀ e c, (step sw loadF s env cfg st).res = .ok (e, c) → EnvBelow e (step sw loadF s env cfg st).st.mods.length := by
+  have keep : ∀ (e : Env), e.fwds = env.fwds → e.globals = env.globals → e.nss = env.nss → ∀ n, st.mods.length ≤ n → EnvBelow e n := by
+    intro e h1 h2 h3 n hn
+    have := envBelow_mono env _ n hb hn
+    exact ⟨by rw [h1]; exact this.1, by rw [h2]; exact this.2.1, by rw [h3]; exact this.2.2⟩
+  cases s with
+  | var n v g =>
+    have hi := insertRoot_graph sw env st n
+    simp only [step]
+    split
+    · split
+      · rename_i cv cfg' _
+        have := hi cv hw
+        exact ⟨this.1, by rw [this.2.1]; exact Nat.le_refl _, by intro e c h; cases h; exact keep _ this.2.2.1 this.2.2.2.1 this.2.2.2.2 _ (by rw [this.2.1]; exact Nat.le_refl _)⟩
+      · split
+        · exact ⟨hw, Nat.le_refl _, by intro e c h; cases h; exact hb⟩
+        · have := hi v hw
+          exact ⟨this.1, by rw [this.2.1]; exact Nat.le_refl _, by intro e c h; cases h; exact keep _ this.2.2.1 this.2.2.2.1 this.2.2.2.2 _ (by rw [this.2.1]; exact Nat.le_refl _)⟩
+    · have := hi v hw
+      exact ⟨this.1, by rw [this.2.1]; exact Nat.le_refl _, by intro e c h; cases h; exact keep _ this.2.2.1 this.2.2.2.1 this.2.2.2.2 _ (by rw [this.2.1]; exact Nat.le_refl _)⟩
+  | fn n b => exact ⟨hw, Nat.le_refl _, by intro e c h; simp [step] at h; rw [← h.1]; exact hb⟩
+  | mixin n => exact ⟨hw, Nat.le_refl _, by intro e c h; simp [step] at h; rw [← h.1]; exact hb⟩
+  | css => exact ⟨hw, Nat.le_refl _, by intro e c h; simp [step] at h; rw [← h.1]; exact hb⟩
+  | dbg => exact ⟨hw, Nat.le_refl _, by intro e c h; simp [step] at h; rw [← h.1]; exact hb⟩
+  | use url ns withs =>
+    simp only [step]
+    generalize hc0 : (if withs.isEmpty = true then Cfg.empty else ({ base := withs, layers := [], explicit := true } : Cfg)) = c0
+    have hg := hG url c0 st hw
+    cases hr : (loadF url c0 st).res with
+    | error e => exact ⟨hg.1, hg.2.1, by intro e c h; cases h⟩
+    | ok r =>
+      obtain ⟨id, c1⟩ := r
+      simp only
+      cases ha : addModule sw env ns url.base id (loadF url c0 st).st.mods with
+      | error e => exact ⟨hg.1, hg.2.1, by intro e c h; cases h⟩
+      | ok env' =>
+        simp only
+        split
+        · exact ⟨hg.1, hg.2.1, by intro e c h; cases h⟩
+        · refine ⟨hg.1, hg.2.1, ?_⟩
+          intro e c h
+          cases h
+          exact addModule_below sw env ns url.base id _ env' _ ha (envBelow_mono env _ _ hb hg.2.1) (hg.2.2 id c1 hr)
+  | forward url rule withs =>
+    simp only [step]
+    cases htf : throughForward sw cfg rule with
+    | mk adj shared =>
+      simp only
+      split
+      · have hg := hG url adj st hw
+        cases hr : (loadF url adj st).res with
+        | error e => exact ⟨hg.1, hg.2.1, by intro e c h; cases h⟩
+        | ok r =>
+          obtain ⟨id, adj'⟩ := r
+          refine ⟨hg.1, hg.2.1, ?_⟩
+          intro e c h
+          cases h
+          have hb' := envBelow_mono env _ _ hb hg.2.1
+          exact ⟨by intro f hf; simp only [List.mem_append, List.mem_singleton] at hf; rcases hf with hf | hf; exact hb'.1 f hf; subst hf; exact hg.2.2 id adj' hr, hb'.2.1, hb'.2.2⟩
+      · split
+        · exact ⟨hw, Nat.le_refl _, by intro e c h; cases h⟩
+        · cases haf : addForwardCfg adj withs with
+          | mk adj1 newCfg =>
+            simp only
+            have hg := hG url newCfg st hw
+            cases hr : (loadF url newCfg st).res with
+            | error e => exact ⟨hg.1, hg.2.1, by intro e c h; cases h⟩
+            | ok r =>
+              obtain ⟨id, new1⟩ := r
+              simp only
+              split
+              · exact ⟨hg.1, hg.2.1, by intro e c h; cases h⟩
+              · refine ⟨hg.1, hg.2.1, ?_⟩
+                intro e c h
+                cases h
+                have hb' := envBelow_mono env _ _ hb hg.2.1
+                exact ⟨by intro f hf; simp only [List.mem_append, List.mem_singleton] at hf; rcases hf with hf | hf; exact hb'.1 f hf; subst hf; exact hg.2.2 id new1 hr, hb'.2.1, hb'.2.2⟩
+  | assign ns n v g =>
+    simp only [step]
+    split
+    · exact ⟨hw, Nat.le_refl _, by intro e c h; cases h⟩
+    · split
+      · split
+        · exact ⟨hw, Nat.le_refl _, by intro e c h; cases h; exact hb⟩
+        · exact ⟨modsWF_setVar _ _ _ _ hw, by simp [St.withMods, setVar_length], by intro e c h; cases h; simpa [St.withMods, setVar_length] using hb⟩
+      · exact ⟨hw, Nat.le_refl _, by intro e c h; cases h⟩
+  | probe pid g k ns n =>
+    simp only [step]
+    split
+    · exact ⟨hw, Nat.le_refl _, by intro e c h; cases h⟩
+    · exact ⟨hw, Nat.le_refl _, by intro e c h; cases h; exact hb⟩
+    · split
+      · exact ⟨hw, Nat.le_refl _, by intro e c h; cases h; exact hb⟩
+      · split
+        · exact ⟨hw, Nat.le_refl _, by intro e c h; cases h; exact hb⟩
+        · exact ⟨hw, Nat.le_refl _, by intro e c h; cases h⟩
+  | pkeys pid k ns =>
+    simp only [step]
+    split
+    · exact ⟨hw, Nat.le_refl _, by intro e c h; cases h⟩
+    · exact ⟨hw, Nat.le_refl _, by intro e c h; cases h; exact hb⟩
+
+theorem evalStmts_graph (sw : Switches) (loadF : LoadF) (hG : GraphOK loadF) :
+    ∀ (ss : List Stmt) (env : Env) (cfg : Cfg) (st : St), ModsWF st.mods → EnvBelow env st.mods.length →
+      ModsWF (evalStmts sw loadF ss env cfg st).st.mods ∧ st.mods.length ≤ (evalStmts sw loadF ss env cfg st).st.mods.length ∧
+      ∀ e c, (evalStmts sw loadF ss env cfg st).res = .ok (e, c) → EnvBelow e (evalStmts sw loadF ss env cfg st).st.mods.length := by
+  intro ss
+  induction ss with
+  | nil => intro env cfg st hw hb; unfold evalStmts; exact ⟨hw, Nat.le_refl _, by intro e c h; cases h; exact hb⟩
+  | cons s rest ih =>
+    intro env cfg st hw hb
+    simp only [evalStmts]
+    have h1 := step_graph sw loadF hG s env cfg st hw hb
+    cases hs : (step sw loadF s env cfg st).res with
+    | error e => exact ⟨h1.1, h1.2.1, by intro e c h; cases h⟩
+    | ok r1 =>
+      obtain ⟨env1, cfg1⟩ := r1
+      simp only
+      have := ih env1 cfg1 _ h1.1 (h1.2.2 env1 cfg1 hs)
+      exact ⟨this.1, Nat.le_trans h1.2.1 this.2.1, this.2.2⟩
+
+theorem findLoaded_lt : ∀ (ms : List Mod) (p : Ident) (id : Nat), findLoaded ms p = some id → id < ms.length := by
+  intro ms
+  induction ms with
+  | nil => intro p id h; simp [findLoaded] at h
+  | cons m rest ih =>
+    intro p id h
+    unfold findLoaded at h
+    split at h
+    · cases h; simp
+    · have := ih p id h; simp; omega
+
+theorem load_graph (sw : Switches) (proj : Project) : ∀ fuel, GraphOK (load sw proj fuel) := by
+  intro fuel
+  induction fuel with
+  | zero => intro url cfg st hw; simp only [load]; exact ⟨hw, Nat.le_refl _, by intro id c h; cases h⟩
+  | succ fuel ih =>
+    intro url cfg st hw
+    simp only [load]
+    split
+    · exact ⟨hw, Nat.le_refl _, by intro id c h; cases h⟩
+    · rename_i src _
+      split
+      · exact ⟨hw, Nat.le_refl _, by intro id c h; cases h⟩
+      · split
+        · exact ⟨hw, Nat.le_refl _, by intro id c h; cases h⟩
+        · split
+          · rename_i id hfl
+            exact ⟨hw, Nat.le_refl _, by intro id' c h; cases h; exact findLoaded_lt _ _ _ hfl⟩
+          · have := evalStmts_graph sw (load sw proj fuel) ih src.body (Env.new src.name) cfg
+              { mods := st.mods, active := src.name :: st.active, entered := st.entered ++ [src.name], trace := st.trace } hw
+              (by simp [EnvBelow, Env.new])
+            generalize ho : evalStmts sw (load sw proj fuel) src.body (Env.new src.name) cfg
+              { mods := st.mods, active := src.name :: st.active, entered := st.entered ++ [src.name], trace := st.trace } = o at this
+            cases hres : o.res with
+            | error e => exact ⟨this.1, this.2.1, by intro id c h; cases h⟩
+            | ok r1 =>
+              obtain ⟨env1, cfg1⟩ := r1
+              have hb := this.2.2 env1 cfg1 hres
+              refine ⟨?_, by simp only [List.length_cons]; exact Nat.le_succ_of_le this.2.1, by intro id c h; cases h; simp⟩
+              intro i m hm
+              unfold modAt at hm
+              split at hm
+              · rename_i hi
+                cases hm
+                subst hi
+                exact ⟨hb.1, hb.2.1, hb.2.2⟩
+              · exact this.1 i m hm
+
 end Grass.Module
